@@ -80,6 +80,11 @@ def special_cases():
                 "services": {"a": {"constructor": "fx/fx.NewA"}, "b": {"constructor": "o/os.NewA", "type": "*o/os.Obj", "getter": "GetB"},
                              "c": {"value": "x/x-y/v2.Global"}, "d": {"constructor": "x/fx.NewA", "arguments": ["!value v/v2.Global"]}},
                 "decorators": [{"tag": "t", "decorator": "fx/fx.Dec1", "arguments": ["!value &o/os.GlobalVal"]}]})
+    # the generated package itself, written `"."`, where a package may stand: constructor, type, value, decorator, !value, function
+    out.append({"__local__": True, "meta": {"pkg": "gen", "functions": {"lf": '".".Fn1'}}, "parameters": {"lp": "%lf(1)%"},
+                "services": {"a": {"constructor": '".".NewA', "type": '*".".Obj', "getter": "GetA", "tags": ["t"]}, "b": {"value": '&".".Obj{}'},
+                             "c": {"constructor": "NewB", "arguments": ['!value ".".Global', "%lp%"]}, "d": {"type": '".".Obj', "getter": "GetD"}},
+                "decorators": [{"tag": "t", "decorator": '".".Dec1', "arguments": ['!value &".".GlobalVal']}]})
     # getters that collide only through the derived names: `ang` with its must-getter next to `Mustang`, `X` next to `XInContext`
     out.append({"meta": dict(fx), "services": {"a": {"constructor": "fx.NewA", "getter": "ang", "must_getter": True}, "b": {"constructor": "fx.NewA", "getter": "Mustang"}}})
     out.append({"meta": dict(fx, default_must_getter=True), "services": {"a": {"constructor": "fx.NewA", "getter": "Go"}, "b": {"constructor": "fx.NewA", "getter": "GoInContext"},
@@ -156,6 +161,7 @@ def run(ctx, n=None):
     seen = set()
     for i, cfg in enumerate(cases):
         cfg = force_pkg(cfg, i)
+        local = cfg.pop("__local__", False)
         nfiles = 1 if i % 3 else ctx.rng.randint(2, 4)
         files = [gen.yaml_doc(f) for f in (gen.split_config(ctx.rng, cfg, nfiles) if nfiles > 1 else [cfg])]
         dist["multi_file"] += nfiles > 1
@@ -176,6 +182,8 @@ def run(ctx, n=None):
             src = open(path).read()
             pkg = re.search(r"^package (\w+)", src, re.M).group(1)
             dist["main_pkg"] += pkg == "main"
+            if local:
+                mod.add_local(name, pkg)
             if pkg == "main":
                 mod.write(name + "/zz_main.go", ("//go:build gontainerstub\n\n" if mode == "stub" else "") + "package main\n\nfunc main() {}\n")
             yamltxt = "\n".join(files)
@@ -185,7 +193,7 @@ def run(ctx, n=None):
             seen.add(re.sub(r'"[^"]*"', '"_"', yamltxt))
     # gofmt stability
     rc, out = core.sh(["gofmt", "-l", root], env=core.GOENV)
-    unstable = [l for l in out.splitlines() if re.search(r"/g\d{3}s?/[^/]+\.go$", l)]
+    unstable = [l for l in out.splitlines() if re.search(r"/g\d{3}s?/gen(_stub)?\.go$", l)]
     for u in unstable:
         name = os.path.basename(os.path.dirname(u))
         files = next(f for (n_, m, p, f) in accepted if n_ == name)
